@@ -71,6 +71,7 @@ type c13Case struct {
 	UpHasCert    bool    `json:"up_client_has_cert,omitempty"`
 	UpReqCert    bool    `json:"up_server_requests_cert,omitempty"`
 	UpCA         int     `json:"up_ca,omitempty"`
+	UpNoCA       bool    `json:"up_no_ca,omitempty"`
 	UpFlags      [3]bool `json:"up_flags_verify_require_skip,omitempty"`
 }
 
@@ -488,6 +489,11 @@ func (e *c13Env) genAuth(r *lab.Rand, flags int, kind string) *c13Case {
 
 func (e *c13Env) genUpstream(r *lab.Rand, flags int, kind string, snSet bool) *c13Case {
 	cs := &c13Case{Family: "upstream", PeerKind: kind, UpCA: r.Intn(2), UpHasCert: flags&8 != 0, UpReqCert: r.Bool()}
+	// one case in five has no ca_cert at all (only for peers that must be refused: with no CA configured even the "right" peer is
+	// vouched for by nobody, which the statement does not speak about)
+	if kind != c13PeerRight && kind != c13PeerStolen && kind != c13PeerWrongName && r.Chance(1, 5) {
+		cs.UpNoCA = true
+	}
 	cs.UpFlags = [3]bool{flags&1 != 0, flags&2 != 0, flags&4 != 0}
 	if snSet {
 		cs.UpServerName = "up.test"
@@ -893,6 +899,10 @@ func (e *c13Env) runUpstream(conns *c13Conns, cs *c13Case) {
 		CACert:            e.pki.CA[cs.UpCA].PEM,
 		ALPN:              strings.Join(cs.ALPN, ","),
 	}
+	if cs.UpNoCA {
+		// no ca_cert configured at all: nothing vouches for any of the generated upstream certificates
+		cfg.CACert = ""
+	}
 	var own *c13Leaf
 	if cs.UpHasCert {
 		own = e.pki.serverLeaf(9, cs.UpCA, "", []string{"mosn-client.test"})
@@ -1011,7 +1021,7 @@ func (e *c13Env) judgeUpstream(cs *c13Case, o *c13Obs, accepted, rejected bool, 
 		outcome = "rejected"
 	}
 	skip := cs.UpFlags[2]
-	c.Distinct(fmt.Sprintf("up|e2e=%v|skip=%v|v=%v|r=%v|cert=%v|sn=%v|%s|%s|%s", cs.E2E, skip, cs.UpFlags[0], cs.UpFlags[1], cs.UpHasCert, cs.UpServerName != "", cs.PeerKind, c13VerName(o.MosnVer), outcome))
+	c.Distinct(fmt.Sprintf("up|noca=%v|e2e=%v|skip=%v|v=%v|r=%v|cert=%v|sn=%v|%s|%s|%s", cs.UpNoCA, cs.E2E, skip, cs.UpFlags[0], cs.UpFlags[1], cs.UpHasCert, cs.UpServerName != "", cs.PeerKind, c13VerName(o.MosnVer), outcome))
 	exp := c13UpstreamExpect(skip, cs.UpServerName != "", cs.PeerKind)
 	if exp == 0 {
 		c.Count(fmt.Sprintf("upstream:observed (not judged) skip=%v server_name_set=%v peer=%s -> %s", skip, cs.UpServerName != "", cs.PeerKind, outcome), 1)
